@@ -271,14 +271,43 @@ def propagation(case, ctx):
     def fresh():
         a_ = gen.build(sp)            # carries sentinel attrs + axis sentinels
         if dimkey:
-            a_._attrs[dimkey] = 'metadata whose key equals a dimension name'
+            a_.attrs[dimkey] = 'metadata whose key equals a dimension name'
         if memberkey:
-            a_._attrs[memberkey] = 'metadata whose key names a class member'
-            a_.axes[d]._attrs[axmember] = 'axis metadata whose key names a class member'
+            a_.attrs[memberkey] = 'metadata whose key names a class member'
+            a_.axes[d].attrs[axmember] = 'axis metadata whose key names a class member'
         return a_
     lab = m.labels[k]
     n = len(lab)
     numeric = sp["kinds"][k] in 'if'
+    mlabels = list(m.labels)
+    absent = lambda: [gen.absent_label(rng, lab, sp["kinds"][k])]
+    # one case in seven: the axis the operations work along carries datetime64 / timedelta64 / bool labels
+    # (only the metadata is compared in this block, so no model of such labels is needed)
+    exo = 'Mmb'[(case["pick"] // 7) % 3] if case["pick"] % 7 == 3 else None
+    if exo:
+        distinct = sorted(set(lab))
+        if exo == 'b' and len(distinct) > 2:
+            exo = 'M'
+        rank = {v: distinct.index(v) for v in distinct}
+        if exo == 'M':
+            exolab = [np.datetime64('2001-01-01') + rank[v] for v in lab]
+            absent = lambda: [np.datetime64('2031-05-01')]
+        elif exo == 'm':
+            exolab = [np.timedelta64(rank[v], 'D') for v in lab]
+            absent = lambda: [np.timedelta64(1000, 'D')]
+        else:
+            exolab = [np.bool_(rank[v]) for v in lab]
+            absent = lambda: [np.bool_(True)] if len(distinct) < 2 else []
+        lab = exolab
+        mlabels[k] = lab
+        numeric = False
+        ctx.outcomes['propagation-exotic-labels-' + exo] += 1
+        _fresh0 = fresh
+
+        def fresh():
+            a_ = _fresh0()
+            a_.axes[k].values = np.array(lab)
+            return a_
     ops = []
     # ---- carried
     one = lab[rng.randrange(n)]
@@ -294,10 +323,10 @@ def propagation(case, ctx):
             ("index-loc-dict", 'carry', lambda a: a.loc[{d: some}], d),
             ("take_axis", 'carry', lambda a: a.take_axis(some, axis=d), d),
             ("compress_axis", 'carry', lambda a: a.compress_axis(mask, axis=d), d),
-            ("reindex_axis", 'carry', lambda a: a.reindex_axis(some + [gen.absent_label(rng, lab, sp["kinds"][k])], axis=d), d),
+            ("reindex_axis", 'carry', lambda a: a.reindex_axis(some + absent(), axis=d), d),
             ("reindex_axis-self", 'carry', lambda a: a.reindex_axis(list(lab), axis=d), d),
             # the requested labels come as an Axis with metadata of its own: the array's axis keeps its own
-            ("reindex_axis-Axis-missing", 'carry', lambda a: a.reindex_axis(da.Axis(some + [gen.absent_label(rng, lab, sp["kinds"][k])], d, vp_other='target', units='other')), d),
+            ("reindex_axis-Axis-missing", 'carry', lambda a: a.reindex_axis(da.Axis(some + absent(), d, vp_other='target', units='other')), d),
             ("reindex_axis-Axis-present", 'carry', lambda a: a.reindex_axis(da.Axis(list(some), d, vp_other='target')), d),
             ("sort_axis", 'carry', lambda a: a.sort_axis(axis=d), None),
             ("transpose", 'carry', lambda a: a.transpose(list(reversed(a.dims))), None),
@@ -369,16 +398,16 @@ def propagation(case, ctx):
         if dimkey and fate == 'carry':
             if res.attrs.get(dimkey) != 'metadata whose key equals a dimension name':
                 ctx.v(ID, "propagation-carry-dimkey:" + name, "%s: attrs[%r] (a key equal to a dimension name) not carried: attrs=%r" % (label, dimkey, res.attrs))
-            res._attrs.pop(dimkey, None)
-            if dimkey in a.dims and not model.labels_eq(a.axes[dimkey].values.tolist(), m.labels[m.dims.index(dimkey)]):
+            res.attrs.pop(dimkey, None)
+            if dimkey in a.dims and not model.labels_eq(a.axes[dimkey].values.tolist(), np.array(mlabels[m.dims.index(dimkey)]).tolist()):
                 ctx.v(ID, "propagation-dimkey-overwrote-labels:" + name, "%s: the source's labels of %r were overwritten by the metadata entry" % (label, dimkey))
         if memberkey and fate == 'carry':
             ctx.outcomes['propagation-member-named-key'] += 1
             if res.attrs.get(memberkey) != 'metadata whose key names a class member':
                 ctx.v(ID, "propagation-carry-memberkey:" + name, "%s: attrs[%r] (a key naming a class member) not carried: attrs=%r" % (label, memberkey, res.attrs))
         if memberkey:
-            res._attrs.pop(memberkey, None)
-            a._attrs.pop(memberkey, None)
+            res.attrs.pop(memberkey, None)
+            a.attrs.pop(memberkey, None)
         p = monitors.meta_ok(res, fate)
         if p:
             ctx.v(ID, "propagation-%s:%s" % (fate, name), "%s: %s" % (label, p))
